@@ -168,6 +168,11 @@ def task_decimal(variant, inc, start, end, mn, mx, ext, L, Lspan):
         sv.add(R.B(viol))
         t1 = time.time()
         r = sv.check()
+        from vlib import e2util as _x
+        if str(r) in ("sat", "unsat"):
+            _x.cross_check(sv, str(r), 40)
+            if _x.XCHECK["disagree"]:
+                raise RuntimeError("solver disagreement: %r" % _x.XCHECK["disagree"][:2])
         solver_s += time.time() - t1
         nq += 1
         if str(r) == "sat":
